@@ -180,12 +180,20 @@ fn gen_project(rng: &mut Rng, id: usize) -> Project {
     // names: a small pool so that collisions between kinds and across files do happen. Most projects respect
     // GraphQL's uniqueness rules (distinct fragment names, distinct operation names); some do not.
     let allow_dup = rng.chance(1, 7);
+    // GraphQL has one namespace for operations and one for fragments: `query Post` next to `fragment Post` is valid
+    // (and their variables differ unless the suffixes say otherwise), so the two kinds draw independently.
     let used: std::cell::RefCell<Vec<String>> = std::cell::RefCell::new(vec![]);
+    let used_ops: std::cell::RefCell<Vec<String>> = std::cell::RefCell::new(vec![]);
     let pick_name = |rng: &mut Rng| -> String {
         loop {
             let n = rng.pick(NAMES).to_string();
-            // one namespace for simplicity: a fragment and an operation may still collide after suffixing/capitalising
             if allow_dup || !used.borrow().contains(&n) { used.borrow_mut().push(n.clone()); return n; }
+        }
+    };
+    let pick_op_name = |rng: &mut Rng| -> String {
+        loop {
+            let n = rng.pick(NAMES).to_string();
+            if allow_dup || !used_ops.borrow().contains(&n) { used_ops.borrow_mut().push(n.clone()); return n; }
         }
     };
     let n_files = *rng.pick(&[1usize, 1, 2, 2, 3]);
@@ -208,7 +216,7 @@ fn gen_project(rng: &mut Rng, id: usize) -> Project {
         frag_names_by_file.push(names.clone());
         for n in &names { defs.push(DefSpec::Frag { name: n.clone(), on: "U", spreads: vec![] }); }
         if fi > 0 && rng.chance(1, 4) {
-            defs.push(DefSpec::Op { kind: "query", name: Some(pick_name(rng)), spreads: vec![], var: false });
+            defs.push(DefSpec::Op { kind: "query", name: Some(pick_op_name(rng)), spreads: vec![], var: false });
         }
         files.push(FileSpec { idx: file_idxs[fi], defs, lead });
     }
@@ -231,9 +239,18 @@ fn gen_project(rng: &mut Rng, id: usize) -> Project {
     let mut ops = vec![];
     for _ in 0..n_ops {
         let kind = *rng.pick(&["query", "query", "mutation", "subscription"]);
-        let name = if (allow_dup || n_ops == 1) && rng.chance(1, 4) { None } else { Some(pick_name(rng)) };
+        let mut name = if (allow_dup || n_ops == 1) && rng.chance(1, 4) { None } else { Some(pick_op_name(rng)) };
         let mut spreads = vec![];
         if !available.is_empty() && rng.chance(1, 2) { spreads.push(rng.pick(&available).clone()); }
+        // deliberately: an operation called like a fragment of the document (local or imported), spread by it or not
+        if !available.is_empty() && rng.chance(1, 4) {
+            let f = rng.pick(&available).clone();
+            if allow_dup || !used_ops.borrow().contains(&f) {
+                used_ops.borrow_mut().push(f.clone());
+                if rng.chance(1, 2) && !spreads.contains(&f) { spreads.push(f.clone()); }
+                name = Some(f);
+            }
+        }
         ops.push(DefSpec::Op { kind, name, spreads, var: rng.chance(1, 4) });
     }
     // local fragments may spread available fragments (not themselves: keeps the type printer finite)
@@ -252,12 +269,12 @@ fn gen_project(rng: &mut Rng, id: usize) -> Project {
     if via_resolver && rng.chance(1, 7) {
         let mut missing = "Missing".to_string();
         for fi in 1..n_files { for n in &frag_names_by_file[fi] { if !available.contains(n) && rng.chance(1, 2) { missing = n.clone(); } } }
-        if main_defs.is_empty() { main_defs.push(DefSpec::Op { kind: "query", name: Some(pick_name(rng)), spreads: vec![], var: false }); }
+        if main_defs.is_empty() { main_defs.push(DefSpec::Op { kind: "query", name: Some(pick_op_name(rng)), spreads: vec![], var: false }); }
         let k = rng.below(main_defs.len());
         match &mut main_defs[k] { DefSpec::Op { spreads, .. } | DefSpec::Frag { spreads, .. } => spreads.push(missing) }
     }
     if main_defs.is_empty() {
-        main_defs.push(DefSpec::Op { kind: "query", name: Some(pick_name(rng)), spreads: vec![], var: false });
+        main_defs.push(DefSpec::Op { kind: "query", name: Some(pick_op_name(rng)), spreads: vec![], var: false });
     }
     rng.shuffle(&mut main_defs);
     files[0].defs = main_defs;
@@ -343,7 +360,16 @@ fn corpus_projects() -> Vec<(Project, Vec<CfgT>)> {
         (project_from_sources(1, "colliding-variable-names/capitalisation",
             &[("main.graphql", "query foo { a }\nquery Foo { a }\n")]),
          vec![named.clone(), None]),
-        (project_from_sources(2, "colliding-variable-names/imported-fragment-vs-operation",
+        (project_from_sources(2, "same-name/fragment-then-operation-spreading-it",
+            &[("main.graphql", "fragment U on U { id }\nquery U { u { ...U } }\n")]),
+         vec![None, named.clone()]),
+        (project_from_sources(3, "same-name/operation-spreading-it-then-fragment",
+            &[("main.graphql", "query U { u { ...U } }\nfragment U on U { id }\n")]),
+         vec![None, named.clone()]),
+        (project_from_sources(4, "same-name/operation-then-fragment-not-spread",
+            &[("main.graphql", "mutation name { a }\nfragment name on U { name }\n")]),
+         vec![named.clone(), None]),
+        (project_from_sources(5, "colliding-variable-names/imported-fragment-vs-operation",
             &[("main.graphql", "#import UserQuery from \"./f1.graphql\"\nquery User { u { ...UserQuery } }\n"),
               ("f1.graphql", "fragment UserQuery on U { id }\n")]),
          vec![None, named]),
@@ -1118,6 +1144,20 @@ fn main() {
     let samples: Vec<Value> = [0usize, cases.len() / 3, cases.len() / 2, cases.len().saturating_sub(1)].iter()
         .filter_map(|i| cases.get(*i)).map(|c| json!({"config_text": c.descr["config_text"], "files": c.descr["project"]["files"],
             "dts_exports_from_text": c.descr["dts_exports_from_text"], "js_exports_from_text": c.descr["js_exports_from_text"]})).collect();
+    // report at most 2 direct failures per distinct message and 8 in all (each is a VIOLATION line); the totals go to the distribution
+    {
+        let total = direct_failures.len();
+        let mut seen: BTreeMap<String, usize> = BTreeMap::new();
+        let mut kept = vec![];
+        for f in direct_failures.drain(..) {
+            let k = f["what"].as_str().unwrap_or("").to_string();
+            let n = seen.entry(k).or_insert(0);
+            *n += 1;
+            if *n <= 2 && kept.len() < 8 { kept.push(f); }
+        }
+        if total > 0 { dist.insert("direct_failures_observed_in_all".into(), total as u64); }
+        direct_failures = kept;
+    }
     write_meta(out, &json!({
         "evaluations": cases.len(),
         "distinct_nontrivial": distinct.len(),
